@@ -603,6 +603,19 @@ func readAddressHeight(v []byte) uint64 {
 	return binary.BigEndian.Uint64(v)
 }
 
+// addressCreatedByCredit is appended to the value of an address record that did not exist
+// before its first payment (i.e. the address was not issued in that form).
+const addressCreatedByCredit byte = 0x01
+
+// rollbackAddressRecord undoes the effect of the first payment to an address: a record the
+// payment created is removed, a record of an issued address becomes unused again.
+func rollbackAddressRecord(ns mwdb.Bucket, k, v []byte) error {
+	if len(v) > 8 && v[8] == addressCreatedByCredit {
+		return deleteRawAddressRecord(ns, k)
+	}
+	return putRawAddressRecord(ns, k, make([]byte, 8))
+}
+
 func fetchAddressesByWalletId(ns mwdb.Bucket, walletId string) ([]*AddressDetail, error) {
 	entries, err := ns.GetByPrefix([]byte(walletId))
 	if err != nil {
